@@ -893,6 +893,32 @@ $GEN{$NG(a int)}{int}{
 	}
 	$RET
 }`, entries: []*Entry{drive("$NG", "int", 1, [][]int{{0}})}},
+	// a range over a pre-filled channel receives exactly one value per iteration: what is still queued is observable
+	// (len) between two yields, and a consumer that stops early leaves the rest in the channel
+	{name: "range-over-channel-receives-on-demand", decls: `
+$GEN{$NG(a int)}{int}{
+	c := tr.Chan(3, 4, 5, 6)
+	for v := range c {
+		tr.Ev(1, v, len(c))
+		$YIELD{v + a}
+		tr.Ev(2, len(c))
+	}
+	d := make(chan int, 3)
+	d <- 7
+	d <- 8
+	d <- 9
+	n := 0
+	for v := range d {
+		n++
+		$YIELD{v*10 + len(d)}
+		if n == 2 {
+			break
+		}
+	}
+	tr.Ev(3, len(d))
+	$YIELD{<-d}
+	$RET
+}`, entries: []*Entry{drive("$NG", "int", 1, nil)}},
 	// a parameter / local that shadows a package-level constant of the same name is yielded as the first statement of
 	// a thunk (head of a loop body, right after a yielding statement) and changes across suspensions
 	{name: "yield-of-identifier-shadowing-a-constant", decls: `
